@@ -31,6 +31,13 @@ elif what == "seeds":
             br = m.get("summary", br)
         print(f"| {m['id']} | {br} | {nd} | {verdict} | {', '.join(det.get('rules', []))} |")
 elif what == "refactors":
-    out = subprocess.run([sys.executable, str(V / "selftest/refactor_matrix.py")],
-                         capture_output=True, text=True).stdout
-    print(out[-12000:])
+    import os
+    cached = os.environ.get("REFACTOR_MATRIX_OUT")
+    if cached:
+        out = Path(cached).read_text()
+    else:
+        out = subprocess.run([sys.executable, str(V / "selftest/refactor_matrix.py")],
+                             capture_output=True, text=True).stdout
+    lines = [ln for ln in out.splitlines() if not ln.startswith("ok ")]
+    print("(every patch x check that is not listed ended in exit 0)")
+    print("\n".join(lines)[-12000:])
